@@ -572,6 +572,7 @@ func (s *Server) inheritClientSession(pk packets.Packet, cl *Client) bool {
 		existing.State.isTakenOver.Store(true)
 		if existing.State.Inflight.Len() > 0 {
 			cl.State.Inflight = existing.State.Inflight.Clone() // [MQTT-3.1.2-5]
+			atomic.AddInt64(&s.Info.Inflight, int64(cl.State.Inflight.Len())) // the inherited messages stay in flight; existing.ClearInflights below subtracts the originals
 			if cl.State.Inflight.maximumReceiveQuota == 0 && cl.ops.options.Capabilities.ReceiveMaximum != 0 {
 				cl.State.Inflight.ResetReceiveQuota(int32(cl.ops.options.Capabilities.ReceiveMaximum)) // server receive max per client
 				cl.State.Inflight.ResetSendQuota(int32(cl.Properties.Props.ReceiveMaximum))            // client receive max
